@@ -111,7 +111,7 @@ HR_A == << TRUE, FALSE, TRUE >>
 HR_B == << FALSE, TRUE, FALSE >>
 HRsA == { HR_A }
 HRsAB == { HR_A, HR_B }
-AllReqs == { "syntax", "validation", "variable", "fielderr", "success" }
+AllReqs == { "syntax", "validation", "variable", "fielderr", "nullerr", "success" }
 AllClasses == { "err", "str", "oth" }
 
 \* ---- the requests (fixed, small; the harness runs them against schema S1)
@@ -119,6 +119,9 @@ Fld(p, par, out) == [p |-> p, par |-> par, out |-> out]
 FieldsOf(req) ==
   CASE req = "success"  -> << Fld("a", 0, "ok"), Fld("o", 0, "ok"), Fld("o/x", 2, "ok") >>
     [] req = "fielderr" -> << Fld("b", 0, "ok"), Fld("o", 0, "ok"), Fld("o/y", 2, "err") >>
+    \* "nul": the resolver returns nil WITHOUT an error for a non-null field: its resolve phase finishes
+    \* with the resolver's (good) outcome, the field error is raised afterwards by completion
+    [] req = "nullerr"  -> << Fld("b", 0, "ok"), Fld("o", 0, "ok"), Fld("o/w", 2, "nul") >>
     [] OTHER -> << >>
 ParseOut(req) == IF req = "syntax" THEN "err" ELSE "ok"
 ValidOut(req) == IF req = "validation" THEN "err" ELSE "ok"
@@ -203,7 +206,7 @@ NextStage(c, dv, t, pc) ==
                              IF c.req = "variable" THEN Enter([u EXCEPT !.oerr = TRUE], "eF", u.efin)
                              ELSE NextField(c, [u EXCEPT !.data = "some"], pc)
     [] t.st = "rS"   -> [t EXCEPT !.st = "res"]
-    [] t.st = "rF"   -> LET bad == c.fields[t.k].out = "err" IN
+    [] t.st = "rF"   -> LET bad == c.fields[t.k].out \in {"err", "nul"} IN
                         NextField(c, [t EXCEPT !.fdone = @ \cup {t.k},
                                                !.ffail = IF bad THEN @ \cup {t.k} ELSE @,
                                                !.oerr = @ \/ bad, !.fin = {}], pc)
@@ -222,7 +225,7 @@ Hook(c, dv, t, x, h) ==
   LET f == IF h \in ResolveHooks THEN c.fields[t.k].p ELSE ""
       o == CASE h = "pF" -> IF t.st = "abF" THEN t.ao ELSE ParseOut(c.req)
              [] h = "vF" -> IF t.st = "abF" THEN t.ao ELSE ValidOut(c.req)
-             [] h = "rF" -> c.fields[t.k].out
+             [] h = "rF" -> IF c.fields[t.k].out = "nul" THEN "ok" ELSE c.fields[t.k].out
              [] h = "eF" -> IF t.st = "abF" THEN t.ao ELSE IF t.oerr THEN "err" ELSE "ok"
              [] h = "hasR" -> IF c.hasres[x] THEN "t" ELSE "f"
              [] OTHER -> ""
@@ -389,8 +392,9 @@ P_Nested(c, t) == \A x \in Exts(c) : NRun(WordOf(t, x), 1, << >>)
 TrueOutcome(c, h, f) ==
   CASE h = "pF" -> ParseOut(c.req)
     [] h = "vF" -> ValidOut(c.req)
-    [] h = "rF" -> (CHOOSE fd \in { c.fields[j] : j \in 1..Len(c.fields) } : fd.p = f).out
-    [] h = "eF" -> IF c.req = "variable" \/ \E j \in 1..Len(c.fields) : c.fields[j].out = "err"
+    [] h = "rF" -> LET o == (CHOOSE fd \in { c.fields[j] : j \in 1..Len(c.fields) } : fd.p = f).out
+                   IN IF o = "nul" THEN "ok" ELSE o
+    [] h = "eF" -> IF c.req = "variable" \/ \E j \in 1..Len(c.fields) : c.fields[j].out \in {"err", "nul"}
                    THEN "err" ELSE "ok"
 P_FinishOutcome(c, t) ==
   \A i \in 1..Len(t.log) :
